@@ -7,6 +7,7 @@ client-boundary event log decides."""
 import errno
 import hashlib
 import json
+import os
 
 from .. import common, tpcommon
 from ..common import Rng, W, R
@@ -92,6 +93,18 @@ def gen_scenarios(tier, seed):
         pool = rng.choice([1, 2, 4])
         out.append(base(rng, family="shutdown-behind-gate", pool=pool, n_ext=1, nmsgs=rng.choice([5, 60]), flags_fixed=0, dst_mode=4, dst_k=0,
                         gate=1, gate_dst=0, shutdown_behind_gate=1))
+    # C4: the stop message is read in one batch behind a second gate; sends accepted while the worker sits in that gate
+    for i in range(2 * scale):
+        out.append(base(rng, family="stop-in-batch-behind-gate", pool=rng.choice([1, 2, 4]), n_ext=1, nmsgs=5, flags_fixed=0, dst_mode=4,
+                        dst_k=0, gate=1, gate_dst=0, shutdown_behind_gate=2))
+    # C5: messages accepted by the shared virtual thread are still queued when the shutdown starts (single gated worker)
+    for i in range(2 * scale):
+        out.append(base(rng, family="pvt-backlog-at-shutdown", pool=1, n_ext=1, nmsgs=5, flags_fixed=0, dst_mode=4,
+                        dst_k=0, gate=1, gate_dst=0, shutdown_behind_gate=3))
+    # C6: a sender races tp_shutdown(), perturbed between its running test and its queue write
+    for i in range(6 * scale):
+        out.append(base(rng, family="send-races-shutdown", pool=rng.choice([1, 2, 4]), n_ext=1, nmsgs=5, flags_fixed=0, dst_mode=0,
+                        perturb=rng.choice([200, 500, 800]), sleep_us=rng.choice([100, 300, 1000]), shutdown_behind_gate=4))
     # D: sends racing with thread start (STARTING)
     for i in range(8 * scale):
         pool = rng.choice([1, 2, 4, 16])
@@ -302,6 +315,10 @@ def run(tier):
     if "asu" not in exes and "tsan" not in exes:
         raise common.Inconclusive("harness does not build: %s" % report.builds)
     scs = gen_scenarios(tier, common.seed())
+    only = os.environ.get("VERIF_FAMILY")   # development filter; a filtered run is never a verdict
+    if only:
+        scs = [sc for sc in scs if sc["family"] in only.split(",")]
+        report.inconclusive.append("development filter VERIF_FAMILY=%s" % only)
     sigs = set()
     fams = {}
     for part in common.parallel(run_one, [(sc, exes) for sc in scs]):
